@@ -32,7 +32,9 @@ Record fcfg := {
   cf_agent : bytes;               (* PROXY_AGENT_HEADER_VALUE = b'proxy.py v' + version *)
   cf_disable : list bytes;        (* flags.disable_headers *)
   cf_auth_code : option bytes;    (* flags.auth_code (base64 of --basic-auth); None: AuthPlugin not loaded *)
-  cf_via_append : bool }.         (* true: the repaired code (proposed fix C02-via-append); false: as found *)
+  cf_via_append : bool;           (* true: the repaired code (fix C02-via-append); false: as found *)
+  cf_upgrade_complete : bool }.   (* true: the repaired code (fix C02-upgrade-request-in-progress): only a COMPLETE
+                                     pipelined upgrade request switches the connection to raw relaying; false: as found *)
 
 Definition PROXY_AUTHORIZATION : bytes := bs "proxy-authorization".   (* httpHeaders.PROXY_AUTHORIZATION *)
 Definition PROXY_CONNECTION : bytes := bs "proxy-connection".
@@ -195,7 +197,7 @@ Definition on_client_data (cfg : fcfg) (st : hstate) (raw : bytes) : outcome :=
       if is_complete (h_request st) && negb (is_https_tunnel (h_request st)) then
         match h_pipeline st with
         | Some q =>
-            if is_connection_upgrade q then
+            if (negb (cf_upgrade_complete cfg) || is_complete q) && is_connection_upgrade q then
               (* previous pipelined request was an upgrade: relay as is *)
               Done false (set_upstream st (Some (queue_upstream up raw)))
             else
